@@ -15,6 +15,7 @@ import PyFatModel.Model.FatIO
 import PyFatModel.Model.Crash
 import PyFatModel.Model.Fs
 import PyFatModel.Model.FsCheck
+import PyFatModel.Model.FsData
 
 open Model Model.Hex
 
@@ -27,6 +28,8 @@ structure DState where
   cps : List (String × Sfn.CodePage) := []
   cpi : List (String × CpInfo) := []
   fs : Option (Fs.Vol × Fs.St × Fs.Spec) := none
+  fsdata : List (Nat × List Nat) := []      -- data area of the fs session: cluster ↦ bytes (absent = zeros)
+  fsmark : Option Fs.St := none
 
 /-- "c:u.u;c:u" → association list -/
 def parseMap (s : String) : Option (List (Nat × List Nat)) :=
@@ -454,6 +457,33 @@ def fsCmd (st : DState) (args : List String) : DState × String :=
       let bad := Fs.checkInv v count s
       (st, if bad.isEmpty then "ok" else "violated " ++ ",".intercalate bad)
     | _, _ => (st, "bad-op")
+  | ["data", c, bytes] =>
+    -- bytes of one cluster of the initial image
+    match c.toNat?, parseHex bytes with
+    | some c, some bs => ({ st with fsdata := (c, bs) :: st.fsdata }, "ok")
+    | _, _ => (st, "bad-op")
+  | ["wdata", p, pos, bytes] =>
+    -- the data side of the last `fs op fwrite/ftrunc` on path p: `oldsize` and the chain are taken from the
+    -- states before / after that call, which the harness brackets with `fs mark`
+    match st.fs, st.fsmark, parseNatList p, pos.toNat?, parseHex bytes with
+    | some (v, s, _), some sOld, some p, some pos, some bs =>
+      match sOld.nodes.find? (fun n => n.path == p), s.nodes.find? (fun n => n.path == p) with
+      | some f, some f' =>
+        let dataFn : Fs.Data := fun c => (st.fsdata.lookup c).getD (List.replicate v.bpc 0)
+        let d' := Fs.writeData v.bpc dataFn f'.chain f.size pos bs
+        ({ st with fsdata := f'.chain.map (fun c => (c, d' c)) ++ st.fsdata.filter (fun kv => !f'.chain.contains kv.1) }, "ok")
+      | _, _ => (st, "ok")
+    | _, _, _, _, _ => (st, "bad-op")
+  | ["mark"] =>
+    match st.fs with
+    | some (_, s, _) => ({ st with fsmark := some s }, "ok")
+    | none => (st, "bad-op")
+  | ["contents"] =>
+    match st.fs with
+    | some (v, s, _) =>
+      let dataFn : Fs.Data := fun c => (st.fsdata.lookup c).getD (List.replicate v.bpc 0)
+      (st, "ok " ++ joinOr ((s.nodes.filter (fun n => !n.isDir)).map fun n => s!"{showNatList n.path}:{fnv (Fs.contentOf dataFn n)}"))
+    | none => (st, "bad-op")
   | ["dump"] =>
     match st.fs with
     | some (_, s, _) => (st, fsDump s)
